@@ -56,7 +56,7 @@ PROBES = ['fault_rst', 'fault_eof', 'fault_stall', 'cut_before_auth',
           'op_error', 'sftp_started', 'teardown_server_side',
           'tunnel_opened', 'tunnel_by_name', 'cut_inner_leg',
           'connect_cancelled', 'reading_paused', 'session_over_at_once',
-          'slow_begin_auth']
+          'slow_begin_auth', 'fault_app_exception']
 
 _sandbox = [None]
 
@@ -159,7 +159,8 @@ def gen_plan(rng):
         })
 
     fk = rng.weighted([('rst', 30), ('eof', 20), ('stall', 10),
-                       ('api', 25), ('cancel', 8), ('none', 7)])
+                       ('api', 25), ('cancel', 8), ('none', 7),
+                       ('app_exc', 6)])
     fault = {'kind': fk}
 
     if fk in ('rst', 'eof', 'stall'):
@@ -180,6 +181,11 @@ def gen_plan(rng):
             'what': rng.choice(['close', 'abort', 'disconnect']),
             'after': rng.below(12),
         })
+    elif fk == 'app_exc':
+        # a callback of one of the application's sessions raises: asyncssh
+        # closes that connection; everything pending on it has to end
+        fault.update({'side': rng.choice(['c', 's']),
+                      'after': rng.below(4)})
     elif fk == 'cancel':
         # chan -1: the caller of connect() itself is cancelled (what a
         # connect timeout does), at any point of handshake and login
@@ -286,6 +292,17 @@ class Sess:
     def _ev(self, what):
         self.log.append(what)
         self.run.world.event(self.name, what)
+        f = self.run.plan['fault']
+
+        if f['kind'] == 'app_exc' and what in ('data', 'eof', 'started') \
+                and self.name.startswith('S' if f['side'] == 's' else 'C'):
+            self.run.app_cb += 1
+
+            if self.run.app_cb == f['after'] + 1:
+                # a bug in the application: its callback raises
+                self.run.sim.stats['fault_app_exc'] += 1
+                self.run.sim.probes['fault_app_exception'] += 1
+                raise ValueError('application callback failed')
 
     def connection_made(self, chan):
         self.chan = chan
@@ -438,6 +455,7 @@ class Run:
         self.aborted = []
         self.abort_sent = []
         self.cur = {}
+        self.app_cb = 0
         self.sess_count = 0
         self.conn = None
         self.acceptor = None
@@ -893,7 +911,7 @@ def run_plan(plan, sched_seed=None, sched_replay=None):
             run.conn is None
 
     fired = bool(wire and wire[0].fired) or \
-        any(k.startswith('fault_api') or k == 'fault_cancel'
+        any(k.startswith('fault_api') or k in ('fault_cancel', 'fault_app_exc')
             for k in sim.stats)
 
     if wire and wire[0].fired:
@@ -1037,6 +1055,10 @@ def run_plan(plan, sched_seed=None, sched_replay=None):
                                 'times' % (owner.name, len(owner.lost)))
 
             for exc in owner.lost:
+                if f['kind'] == 'app_exc' and isinstance(exc, ValueError):
+                    # (the application's own exception)
+                    continue
+
                 if exc is not None and not isinstance(exc, OK_ERRORS):
                     # nothing a peer or a caller does may end a connection
                     # with an exception escaping from the library
